@@ -221,6 +221,7 @@ PosWord(positive, n, stk) ==
 
 Emp           == [k |-> "emp"]
 Lit(n)        == [k |-> "lit", n |-> n]
+EList         == [k |-> "elist"]                                   \* []
 Str(s)        == [k |-> "str", w |-> s]
 W(w)          == [k |-> "word", w |-> w]
 PosW(p, n)    == [k |-> "posw", p |-> p, n |-> n]
@@ -268,7 +269,7 @@ ScopeWith(ids, p, vis) ==
     IF ~Distinct(ids) THEN BERR ELSE Bind(p, Range(ids), vis \cup Range(ids))
 Bind(p, cur, vis) ==
     LET same == [cur |-> cur, vis |-> vis] IN
-    CASE p.k \in {"emp", "lit", "str", "word", "posw"} -> same
+    CASE p.k \in {"emp", "lit", "str", "word", "posw", "elist"} -> same
       [] p.k = "name" -> IF p.w \in vis THEN same ELSE BERR
       [] p.k = "cat" -> LET r == Bind(p.a, cur, vis) IN
                         IF IsErr(r) THEN BERR ELSE Bind(p.b, r.cur, r.vis)
@@ -333,7 +334,7 @@ SeqEff(x, y) ==   \* x then y
     ELSE Eff1(Max(x.need, y.need - x.delta), x.delta + y.delta)
 Eff(p) ==
     CASE p.k = "emp" -> Eff1(0, 0)
-      [] p.k \in {"lit", "str", "name"} -> Eff1(0, 1)
+      [] p.k \in {"lit", "str", "name", "elist"} -> Eff1(0, 1)
       [] p.k = "word" -> WordEff(p.w)
       [] p.k = "posw" -> Eff1(1, 0)
       [] p.k = "cat" -> SeqEff(Eff(p.a), Eff(p.b))
@@ -456,6 +457,7 @@ Closure(body, env, todo, seen, acc) ==
 Den(p, env, stk) ==
     CASE p.k = "emp"  -> ResOf(<<R1(stk, env)>>)
       [] p.k = "lit"  -> ResOf(<<R1(Push(stk, IntV(p.n)), env)>>)
+      [] p.k = "elist" -> ResOf(<<R1(Push(stk, SeqV(<<>>)), env)>>)
       [] p.k = "str"  -> ResOf(<<R1(Push(stk, StrV(p.w)), env)>>)
       [] p.k = "word" -> FromWord(Word(p.w, stk), env)
       [] p.k = "posw" -> FromWord(PosWord(p.p, p.n, stk), env)
